@@ -33,17 +33,19 @@ theorem outOf_none_of_opOf (cop : COp K V) (r : Res K V) (cb : Option (Option V)
 
 /-! ### bookkeeping -/
 
-/-- an operation in progress with continuation `k`: invoked, not yet linearized; `k` belongs
-    to it; inside the callback, the callback note has been logged with the remembered argument -/
-def KBk (st : LinState K V) (cbt : Option (Option V)) (t pc : Nat) (cop : COp K V) (k : Kont K V) : Prop :=
-  (∀ op, opOf cop = some op → st.status t pc = .invoked op) ∧ KontFor cop k ∧
+/-- an operation in progress with continuation `k`: invoked, not yet linearized (`post = false`)
+    or, for a Delete that has removed its key and is unwinding (`post = true`), linearized;
+    `k` belongs to it; inside the callback, the callback note has been logged with the
+    remembered argument -/
+def KBk (st : LinState K V) (cbt : Option (Option V)) (t pc : Nat) (cop : COp K V) (k : Kont K V) (post : Bool) : Prop :=
+  (∀ op, opOf cop = some op → st.status t pc = if post then .linearized op .done else .invoked op) ∧ KontFor cop k ∧
     (∀ arg, cbArg k = some arg → cbt = some arg)
 
 def ParkBk (st : LinState K V) (cbt : Option (Option V)) (t pc : Nat) (ocop : Option (COp K V)) : Park K V → Prop
   | .start => pc = 0 ∧ st.status t 0 = .fresh
   | .finished => True
-  | .want _ k => ∃ cop, ocop = some cop ∧ KBk st cbt t pc cop k
-  | .yielded k => ∃ cop, ocop = some cop ∧ KBk st cbt t pc cop k
+  | .want _ k => ∃ cop, ocop = some cop ∧ KBk st cbt t pc cop k (postK k)
+  | .yielded k => ∃ cop, ocop = some cop ∧ KBk st cbt t pc cop k false
 
 structure ThreadBk (st : LinState K V) (cbt : Option (Option V)) (t : Nat) (th : Thread K V) : Prop where
   fresh : ∀ i, th.pc < i → st.status t i = .fresh
@@ -203,13 +205,16 @@ theorem begin_op {s : St K V} {h : List (HEv K V)} {j : Nat} {cop : COp K V}
       rw [this] at ho; cases ho
     | park p =>
       intro fl
-      obtain ⟨k, hk, hkf, hcb⟩ := fl
-      have hb : KBk (linState lt init h') ((hx progs (startOp t (s.note t (.inv j)) cop).1.evs).cb t) t j cop k :=
+      obtain ⟨k, hk, hkf, hcb, hpp⟩ := fl
+      have hb : KBk (linState lt init h') ((hx progs (startOp t (s.note t (.inv j)) cop).1.evs).cb t) t j cop k false :=
         ⟨hinv, hkf, by intro arg ha; rw [hcb] at ha; cases ha⟩
       cases p with
       | start => cases hk
       | finished => cases hk
-      | want l k' => cases hk; exact ⟨cop, rfl, hb⟩
+      | want l k' =>
+        cases hk
+        have hpk : postK k = false := hpp
+        exact ⟨cop, rfl, by rw [hpk]; exact hb⟩
       | yielded k' => cases hk; exact ⟨cop, rfl, hb⟩
 
 /-- the `ret` note of the stretch that just ended -/
